@@ -151,7 +151,7 @@ theorem setStream_quiet_acc' (b : Stream) (hb : Quiet (s.stream b.key) b) (h : T
   | none => rw [setStream_absent hg]; exact h
   | some a =>
     rw [stream_eq_of_get? hg] at hb
-    exact h.tau (El.setStream hg hb.es (fun x _ => ES.rfl_none x) rfl (by intro _ _ e; cases e))
+    exact h.tau (El.setStream hg hb.es (fun x _ => ES.rfl_none x) rfl (by intro _ _ e; cases e) (by intro _ e; cases e))
 
 theorem stream_key' (s : Streams) (k : Nat) : (s.stream k).key = k := by
   unfold Streams.stream
@@ -189,9 +189,9 @@ grind_pattern setStream_wake_acc => Quiet (s.stream k) b, Tr P s0 ((s.setStream 
   h.tau (.of_store_eq' (fun _ => rfl) rfl rfl)
 
 /-- `Ptr::remove` together with the bookkeeping of the leaked receive buffer entries: the step `gone k` -/
-@[grind ←] theorem remove_acc (k n : Nat) (h : Tr P s0 s) :
+@[grind ←] theorem remove_acc (k n : Nat) (hg : P.gone) (h : Tr P s0 s) :
     Tr P s0 { s with store := s.store.remove k, recvBufferLeaked := n } := by
-  refine h.lbl (.gone k) ⟨Nat.le_refl _, ?_, ?_, rfl, by intro _ _ e; cases e⟩ trivial
+  refine h.lbl (.gone k) ⟨Nat.le_refl _, ?_, ?_, rfl, (by intro _ _ e hk; cases e; simp [Lbl.key?] at hk), ?_⟩ hg
   · intro k' a ha
     show (∃ b, (s.store.remove k).get? k' = some b ∧ _) ∨ ((s.store.remove k).get? k' = none ∧ _)
     rw [Store.get?_remove]
@@ -202,16 +202,20 @@ grind_pattern setStream_wake_acc => Quiet (s.stream k) b, Tr P s0 ((s.setStream 
     have : (s.store.remove k).get? k' = some b := hs
     rw [Store.get?_remove, hn] at this
     split at this <;> cases this
+  · intro k' e
+    cases e
+    show (s.store.remove k).get? k = none
+    rw [Store.get?_remove]; simp
 
-@[grind ←] theorem unlinkRemove_acc (id k : Nat) (h : Tr P s0 s) :
+@[grind ←] theorem unlinkRemove_acc (id k : Nat) (hg : P.gone) (h : Tr P s0 s) :
     Tr P s0 { s with store := (s.store.unlink id).remove k } := by
   have h1 := unlink_acc id h
-  exact remove_acc k s.recvBufferLeaked h1
+  exact remove_acc k s.recvBufferLeaked hg h1
 
 /-- `Store::insert` of an entry with empty queues -/
 @[grind ←] theorem insert_acc (a : Stream) (ha1 : a.pendingSend = []) (ha2 : a.pendingRecv = []) (h : Tr P s0 s) :
     Tr P s0 { s with store := (s.store.insert a).1 } := by
-  refine h.tau ⟨Nat.le_succ _, ?_, ?_, rfl, by intro _ _ e; cases e⟩
+  refine h.tau ⟨Nat.le_succ _, ?_, ?_, rfl, (by intro _ _ e; cases e), (by intro _ e; cases e)⟩
   · intro k x hx
     refine Or.inl ⟨x, ?_, ES.rfl_none x⟩
     show (s.store.insert a).1.get? k = some x
